@@ -276,6 +276,17 @@ def net_correspondence(res, tier, rng):
                 a = [float((7 * j * j + 3 * j) % 23 - 9) for j in range(n)]
                 glines.append('n%d SCHED NET msum - - %s %d %d' % (i, vlib.streams([a, [float(p)]]), cap, i % 6))
                 mlines.append('n%d NET msum 1 %d %s %d,%d' % (i, cap, vlib.il(a), p, cap + p))
+    # trend.Ema: Head + Sma seed, then the indicator's goroutine reads the input itself (NetM.recurNet; inputs are multiples of p
+    # and the multiplier is an integer so that Go's float64 values are exact integers)
+    for n in range(0, 9 if tier == 'quick' else 16):
+        for p in range(1, 5 if tier == 'quick' else 8):
+            for cap in (0, 1, 2):
+                for mul in ((2,) if tier == 'quick' else (2, -1)):
+                    i = len(cases)
+                    cases.append((n, 'p=%d,mul=%d' % (p, mul), cap))
+                    a = [float(p * ((5 * j * j + j) % 11 - 4)) for j in range(n)]
+                    glines.append('n%d SCHED NET ema - - %s %d %d' % (i, vlib.streams([a, [float(p), float(mul)]]), cap, i % 6))
+                    mlines.append('n%d NET ema 1 %d %s %d,%d' % (i, cap, vlib.il(a), p, mul))
     go, model = vlib.run_go(glines), vlib.run_model(mlines)
     bad = 0
     for i, c in enumerate(cases):
